@@ -26,7 +26,7 @@ LEAN_MODULES = ["NiftyVerif.Core.Proto", "NiftyVerif.Props.C33"]
 DRIVER = "Driver/C33.lean"
 OBLIGATIONS = ["NiftyVerif.C33." + t for t in (
     "flatten_map₂", "binary_flat", "flatten_broadcast_scalar", "unary_flat", "size_flat", "sum_flat", "max_flat",
-    "min_flat", "vdot_flat", "where_flat", "norm_flat_1", "norm_flat_inf", "norm_flat_2", "slices_moveaxis", "stack_moveaxis",
+    "min_flat", "vdot_flat", "mean_flat", "vdot_flat_complex", "sum_flat_complex", "where_flat", "norm_flat_1", "norm_flat_inf", "norm_flat_2", "slices_moveaxis", "stack_moveaxis",
     "reord_inverse", "smap_eq_vmap", "asFound_none_returns_input", "lscan_eq_scan")]
 RULE = ("pytrees: nested dict/tuple/list, depth<=3, 1-6 leaves of shape () .. 3-D with integer entries; operators: all "
         "binary/unary overloads of Vector with tree/tree, scalar/tree, tree/scalar and mismatching operands; reductions; where; "
@@ -38,7 +38,7 @@ TRUSTED_BASE = ["Lean 4.33 kernel; axioms propext/Classical.choice/Quot.sound on
                 "leaves; jax.tree_util flattening order (sorted dict keys) and jnp entry-wise operators are executed, not proved",
                 "jax.vmap is the reference for the maps (vmapSpec in the model is its specification)"]
 ASSUMPTIONS = ["integer leaves (class E); norm(ord=2) compared through its square with relative tolerance 1e-12 (class T)",
-               "complex leaves: oracle only (flat semantics with NumPy), not sent to the model"]
+               "complex leaves are Gaussian integers (exact in complex128) and are sent to the model (GInt)"]
 
 BINOPS = {"add": operator.add, "sub": operator.sub, "mul": operator.mul, "floordiv": operator.floordiv,
           "mod": operator.mod, "pow": operator.pow, "lshift": operator.lshift, "rshift": operator.rshift,
@@ -489,7 +489,7 @@ def gen_smap(rng):
             axis = o if rng.random() < 0.6 else o - nd_out
         outs.append(dict(expr=e, axis=axis, ndim=nd_out))
     # how the flat argument leaves are grouped into positional arguments (pytree-valued in_axes)
-    group = rng.choice(["flat", "flat", "nested"])
+    group = rng.choice(["flat", "flat", "nested", "dict"])
     return dict(op="smap", args=args, outs=outs, len=L, group=group, int_axes=rng.random() < 0.15, jit=rng.random() < 0.3)
 
 
@@ -514,9 +514,12 @@ def build_smap_call(case):
     axes = [a["axis"] for a in case["args"]]
     if case["group"] == "nested" and len(arrs) >= 2:
         # first positional argument: a tuple of the first two leaves (pytree-valued in_axes entry); the rest positional.
-        # (dict-valued in_axes are rejected by smap itself: its jit needs hashable static arguments — outside the alphabet)
         pos = [(arrs[0], arrs[1])] + arrs[2:]
         in_axes = tuple([(axes[0], axes[1])] + axes[2:])
+    elif case["group"] == "dict" and len(arrs) >= 2:
+        # dict-valued in_axes entry (jax.vmap and lmap accept it; smap must too)
+        pos = [{"p": arrs[0], "q": arrs[1]}] + arrs[2:]
+        in_axes = tuple([{"p": axes[0], "q": axes[1]}] + axes[2:])
     else:
         pos = list(arrs)
         in_axes = tuple(axes)
@@ -604,6 +607,63 @@ def oracle_cplx(case):
     except Exception as e:
         return (f"tree_math raised {type(e).__name__} on complex leaves: {str(e)[:100]}", dict(sig, what="raised"))
     return None
+
+
+def _ctree_json(case, k):
+    """complex JSON tree with [re, im] leaves from the two integer trees of a cplx case"""
+    def go(a, b):
+        if "leaf" in a:
+            return {"leaf": [a["leaf"][0], [[x, y] for x, y in zip(a["leaf"][1], b["leaf"][1])]]}
+        return {"node": [a["node"][0], [go(x, y) for x, y in zip(a["node"][1], b["node"][1])]]}
+    return go(case[k], case[k + "i"])
+
+
+def _cfrom_py(p):
+    from nifty.re.tree_math.vector import Vector
+    if isinstance(p, Vector):
+        return _cfrom_py(p.tree)
+    if isinstance(p, dict):
+        ks = sorted(p.keys())
+        return {"node": ["dict:" + ",".join(ks), [_cfrom_py(p[k]) for k in ks]]}
+    if isinstance(p, (tuple, list)):
+        return {"node": ["tuple" if isinstance(p, tuple) else "list", [_cfrom_py(c) for c in p]]}
+    a = np.asarray(p)
+    flat_ = a.reshape(-1)
+    return {"leaf": [list(a.shape), [[int(np.real(z)), int(np.imag(z))] if float(np.real(z)) == int(np.real(z)) and
+                                     float(np.imag(z)) == int(np.imag(z)) else [repr(complex(z)), 0] for z in flat_]]}
+
+
+def cplx_request(case):
+    cop = case.get("cop", "cvdot")
+    if cop == "cvdot":
+        return dict(op="cvdot", a=_ctree_json(case, "a"), b=_ctree_json(case, "b"))
+    if cop.startswith("bin:"):
+        return dict(op="cbinop", f=cop[4:], lhs={"tree": _ctree_json(case, "a")}, rhs={"tree": _ctree_json(case, "b")})
+    if cop.startswith("sbin:"):
+        return dict(op="cbinop", f=cop[5:], lhs={"scalar": [2, 1]}, rhs={"tree": _ctree_json(case, "a")})
+    return dict(op="cunary", f=cop[3:], x=_ctree_json(case, "a"))
+
+
+def cplx_real(case):
+    import nifty.re as jft
+    from nifty.re.tree_math.vector import Vector
+    a, b = _ctree(case, "a"), _ctree(case, "b")
+    cop = case.get("cop", "cvdot")
+    try:
+        if cop == "cvdot":
+            v, s_ = complex(jft.vdot(a, b)), complex(jft.sum(a))
+            n2 = float(jft.norm(a, ord=2))
+            return dict(vdot=[int(v.real), int(v.imag)], sum=[int(s_.real), int(s_.imag)], _norm2=n2)
+        va, vb = Vector(a), Vector(b)
+        if cop.startswith("bin:"):
+            r = {"add": va + vb, "sub": va - vb, "mul": va * vb}[cop[4:]]
+        elif cop.startswith("sbin:"):
+            r = {"add": (2 + 1j) + va, "sub": (2 + 1j) - va, "mul": (2 + 1j) * va}[cop[5:]]
+        else:
+            r = {"neg": -va, "pos": +va, "conj": va.conj(), "real": va.real, "imag": va.imag}[cop[3:]]
+        return {"tree": _cfrom_py(r)}
+    except Exception as e:
+        return {"error": type(e).__name__}
 
 
 # ---- forests (tuples of equally structured trees): oracle only ---------------------------------------------------------------
@@ -701,9 +761,9 @@ def model_request(case):
         t = case["lhs"].get("tree") or case["rhs"].get("tree")
         return dict(op="reduce", x=t)                # float division is not modelled: placeholder request
     if case["op"] == "cplx":
-        return dict(op="reduce", x=case["a"])        # complex leaves are not modelled: placeholder request
+        return cplx_request(case)
     if case["op"] == "forest":
-        return dict(op="reduce", x=case["trees"][0])
+        return dict(op="mean", trees=case["trees"])
     return {k: v for k, v in case.items() if k != "how"}
 
 
@@ -711,7 +771,7 @@ def run(ctx):
     _jax()
     rng = ctx.rng
     cases = _corpus()
-    for _ in range(ctx.n(160, 1500)):
+    for _ in range(ctx.n(120, 1500)):
         cases.append(gen_binop(rng))
     for _ in range(ctx.n(40, 250)):
         cases.append(dict(op="unary", f=rng.choice(list(UNOPS)), x=gen_tree(rng, rng.choice([1, 2, 3]))))
@@ -723,11 +783,12 @@ def run(ctx):
         cases.append(dict(op="vdot", a=a, b=b, how=rng.randrange(3)))
     for _ in range(ctx.n(40, 250)):
         cases.append(gen_where(rng))
-    for _ in range(ctx.n(40, 300)):
+    for _ in range(ctx.n(30, 300)):
         cases.append(gen_smap(rng))
     for _ in range(ctx.n(25, 200)):
         a = gen_tree(rng, rng.choice([1, 2, 3]), -5, 5)
-        cases.append(dict(op="cplx", a=a, ai=same_struct(rng, a, -5, 5), b=same_struct(rng, a, -5, 5), bi=same_struct(rng, a, -5, 5)))
+        cop = rng.choice(["cvdot", "cvdot", "bin:add", "bin:sub", "bin:mul", "sbin:sub", "sbin:mul", "un:conj", "un:real", "un:imag", "un:neg"])
+        cases.append(dict(op="cplx", cop=cop, a=a, ai=same_struct(rng, a, -5, 5), b=same_struct(rng, a, -5, 5), bi=same_struct(rng, a, -5, 5)))
     for _ in range(ctx.n(20, 150)):
         a = gen_tree(rng, rng.choice([1, 2, 3]))
         cases.append(dict(op="forest", trees=[a] + [same_struct(rng, a) for _ in range(rng.randrange(0, 4))], how=rng.randrange(2)))
@@ -736,8 +797,29 @@ def run(ctx):
         k = c["op"]
         ctx.stat("op:" + k + (":" + c["f"] if "f" in c else ""))
         try:
-            if k in ("cplx", "forest"):
-                ctx.case(c, num_leaves(c["a"] if k == "cplx" else c["trees"][0]) >= 2)
+            if k == "cplx":
+                impl = cplx_real(c)
+                n2 = impl.pop("_norm2", None)
+                if n2 is not None and isinstance(m.get("norm2sq"), int):
+                    if abs(n2 - m["norm2sq"] ** 0.5) > 1e-12 * (1 + m["norm2sq"] ** 0.5):
+                        ctx.disagree(c, n2, m["norm2sq"], "C33 norm(complex tree, 2) vs sqrt of the model's sum |z|^2 (class T)")
+                    m = {kk: m.get(kk) for kk in impl}
+                ctx.compare(c, impl, m, note="C33 complex (Gaussian-integer) leaves: real tree_math vs Lean model",
+                            nontrivial=num_leaves(c["a"]) >= 2)
+                ctx.stat("cplx:" + c.get("cop", "cvdot"))
+                r = oracle(c)
+                if r:
+                    ctx.counterexample(c, *r)
+                continue
+            if k in ("forest",):
+                from nifty.re.tree_math import forest_math as fm
+                from fractions import Fraction
+                trees = [to_py(t, np.float64) for t in c["trees"]]
+                got = flat(fm.mean(tuple(trees)))
+                exp = [float(Fraction(x)) for x in m.get("flat", [])]
+                ctx.case(c, num_leaves(c["trees"][0]) >= 2)
+                if len(exp) != got.size or not np.allclose(got, exp, rtol=1e-13, atol=1e-13):
+                    ctx.disagree(c, got.tolist(), m, "C33 forest mean vs exact rational mean of the model (class T)")
                 r = oracle(c)
                 if r:
                     ctx.counterexample(c, *r)
